@@ -434,6 +434,9 @@ impl World {
     }
     fn rollback(&mut self) {
         self.w().rollback().unwrap();
+        // `rollback` replaces the writer by a fresh one with the default merge policy; the
+        // scenarios rely on merges happening only where they ask for them
+        self.w().set_merge_policy(Box::new(NoMergePolicy));
         self.live = self.committed.clone();
         self.ops.push("rollback".into());
     }
@@ -1164,18 +1167,26 @@ fn scenario_concurrent(ctx: &mut Ctx, seed: u64, reloads: usize, mmap: bool) {
     let mut gc_livings: Vec<Vec<String>> = vec![];
     {
         w.commit();
-        let mut living: Vec<String> = vec![META.to_string()];
-        for m in w.index.searchable_segment_metas().unwrap() {
-            living.extend(m.list_files().into_iter().map(|p| p.to_string_lossy().to_string()));
-        }
         if rng.chance(1, 2) {
             w.drop_writer();
         }
-        gc_livings.push(living.clone());
+        // like the writer's own GC, the living set is computed inside the closure, i.e. while
+        // garbage_collect holds META_LOCK (a set computed earlier could be stale)
+        let shared: Arc<Mutex<Vec<Vec<String>>>> = Arc::new(Mutex::new(vec![]));
+        let sh = shared.clone();
         let g = gdir.clone();
+        let idx_for_list = w.index.clone();
         let mut idx = w.index.clone();
-        let set: std::collections::HashSet<PathBuf> = living.iter().map(PathBuf::from).collect();
-        let res = catch_unwind(AssertUnwindSafe(|| idx.directory_mut().garbage_collect(move || { g.mark(MARK_GCLIST); set })));
+        let res = catch_unwind(AssertUnwindSafe(|| idx.directory_mut().garbage_collect(move || {
+            g.mark(MARK_GCLIST);
+            let mut living: Vec<String> = vec![META.to_string()];
+            for m in idx_for_list.searchable_segment_metas().expect("meta.json readable inside the GC closure") {
+                living.extend(m.list_files().into_iter().map(|p| p.to_string_lossy().to_string()));
+            }
+            sh.lock().unwrap().push(living.clone());
+            living.iter().map(PathBuf::from).collect::<std::collections::HashSet<PathBuf>>()
+        })));
+        gc_livings.extend(shared.lock().unwrap().iter().cloned());
         if !matches!(res, Ok(Ok(_))) {
             ctx.report.violation("oracle", "C05:gc-failed", "ManagedDirectory::garbage_collect failed or panicked".into(), case.clone());
         }
